@@ -2,6 +2,7 @@ package scen
 
 import (
 	"fmt"
+	mathrand "math/rand"
 	"time"
 
 	"github.com/xelaj/mtproto/telegram"
@@ -52,6 +53,9 @@ func (e *Env) runHandshake() error {
 	e.InstallDraws()
 	if err := e.NewClient(e.Srv.Addr()); err != nil {
 		return err
+	}
+	if e.Sc.ReseedGlobal != nil {
+		mathrand.Seed(*e.Sc.ReseedGlobal) //nolint:staticcheck // the point is to control the global generator
 	}
 	e.Connect(e.patience(), abort)
 	if e.Res.Connected {
